@@ -106,6 +106,13 @@ def gen_case(g: VGen, opts: dict) -> dict:
     for d in list(props.find_all(v, g.env)):
         if d.get("k") == "lazy" and r.random() < 0.25:
             d["recurrent"] = False
+    # a negative length / count parameter is an `int` like any other (finding D26 lives here)
+    if r.random() < 0.05:
+        counts = [d for d in props.find_all(v, g.env)
+                  if d.get("k") in ("MinLength", "MaxLength", "ExactLength", "MinItems", "MaxItems", "ExactItemCount",
+                                    "MinKeys", "MaxKeys") and "n" in d]
+        if counts:
+            r.choice(counts)["n"] = r.choice([-1, -2])
     named = None
     if r.random() < 0.4:
         name = "".join(chr(r.choice([97, 65, 95, 32, 47, 35, 0xe9, 48])) for _ in range(r.choice([0, 1, 4])))
